@@ -171,6 +171,8 @@ class SeqHooks(ClassHooks):
     def get_attr(self, eng, obj, attr):
         if isinstance(obj, Rec) and attr == "codons":
             return Opaque("codons")
+        if isinstance(obj, Rec) and attr in ("_translate_plus", "_translate_minus"):
+            return ("bound", obj, attr)                 # the converter taken as a value, called later
         return super().get_attr(eng, obj, attr)
 
 
@@ -391,9 +393,9 @@ def run(chk):
     chk.function(OLD, "GeneticCode.__getitem__", "F")
     only = getattr(chk, "only", None)
     if not only or "proof" in only:
-        finite_obligations(chk)
-        frame_obligations(chk)
-        kmer_obligations(chk)
+        chk.guard(finite_obligations)
+        chk.guard(frame_obligations)
+        chk.guard(kmer_obligations)
         chk.discharge()
     chk.assume("bytes.translate / str slicing are pointwise (trusted): the translation of a sequence is the concatenation of "
                "the per-codon lookups of the segments proved here")
